@@ -285,6 +285,9 @@ def _from(vm, cal, args):
         return vm.cast(v, tb, 'IntToInt')
     if tb == 'f64' and z3.is_fp(v):
         return vm.cast(v, 'f64', 'FloatToFloat')
+    if tb == 'OPoint' and isinstance(v, (tuple, VecV)) and len(seq_of(vm, v)) == 2:
+        x, y = seq_of(vm, v)      # nalgebra Point2::from([x, y])
+        return Adt('OPoint', 0, (Adt('XY', 0, (x, y)),))
     if cal.method == 'into':
         # std's blanket `impl<T, U: From<T>> Into<U> for T`: into() is U::from(self); use the crate's From impl if any
         from vm import Callee
@@ -2355,6 +2358,22 @@ def _mat_elem(vm, m, idx):
         vm.assume(z3.And(z3.Not(z3.fpIsNaN(x)), z3.Not(z3.fpIsInf(x))))
         cache[k] = x
     return cache[k]
+
+
+@reg(('Cow', None, 'Borrowed'), ('Cow', None, 'Owned'))
+def _cow_ctor(vm, cal, args):
+    return Adt('Cow', 0 if cal.method == 'Borrowed' else 1, (args[0],))
+
+
+@reg(('Matrix', None, 'len'))
+def _mat_len(vm, cal, args):
+    m = _mat(vm, args[0])
+    if m.op == 'vec':
+        return usize(len(m.args))
+    n = vm.notes.get('mat_len', {}).get(m.args[0] if m.op == 'sym' else None)
+    if n is None:
+        raise Unmodelled("length of an opaque matrix term")
+    return usize(n)
 
 
 @reg(('Matrix', 'Index', 'index'))
